@@ -50,10 +50,19 @@ func (m *Mutex) TryLock() bool {
 	if rt.CurMode == rt.Free {
 		return m.real.TryLock()
 	}
+	w := rt.W
+	if w != nil && !w.Dead() && w.Cur != nil {
+		// never blocks, but what it answers depends on when it runs: a scheduling point
+		w.Point(rt.Op{Kind: rt.OpYield, Obj: m})
+	}
 	if m.held {
 		return false
 	}
 	m.held = true
+	if w != nil && !w.Dead() && w.Cur != nil {
+		m.Owner = w.Cur
+		w.LockEvent("lock", m)
+	}
 	return true
 }
 
@@ -112,6 +121,51 @@ func (rw *RWMutex) Lock() {
 	rw.writer = true
 	rw.WOwner = w.Cur
 	w.LockEvent("lock", rw)
+}
+
+// TryLock / TryRLock never block, but what they answer depends on when they run: scheduling points.
+func (rw *RWMutex) TryLock() bool {
+	if rt.CurMode == rt.Free {
+		return rw.real.TryLock()
+	}
+	w := rt.W
+	if w == nil || w.Dead() {
+		return true
+	}
+	if w.Cur != nil {
+		w.Point(rt.Op{Kind: rt.OpYield, Obj: rw})
+	}
+	if rw.writer || rw.readers > 0 {
+		return false
+	}
+	rw.writer = true
+	if w.Cur != nil {
+		rw.WOwner = w.Cur
+		w.LockEvent("lock", rw)
+	}
+	return true
+}
+
+func (rw *RWMutex) TryRLock() bool {
+	if rt.CurMode == rt.Free {
+		return rw.real.TryRLock()
+	}
+	w := rt.W
+	if w == nil || w.Dead() {
+		return true
+	}
+	if w.Cur != nil {
+		w.Point(rt.Op{Kind: rt.OpYield, Obj: rw})
+	}
+	if rw.writer || rw.waitingW > 0 {
+		return false
+	}
+	rw.readers++
+	if w.Cur != nil {
+		rw.ROwners = append(rw.ROwners, w.Cur)
+		w.LockEvent("rlock", rw)
+	}
+	return true
 }
 
 func (rw *RWMutex) Unlock() {
